@@ -3,6 +3,7 @@ mod clip;
 mod common;
 mod latt;
 mod nn;
+mod pred;
 mod probe;
 mod sched;
 mod tess;
@@ -20,6 +21,8 @@ fn main() {
         "sched" => sched::main_sched(rest),
         "nn" => nn::main_nn(rest),
         "clip" => clip::main_clip(rest),
+        "pred" => pred::main_pred(rest),
+        "tokens" => latt::main_tokens(rest),
         "dump-lattice" => latt::main_dump(rest),
         other => {
             eprintln!("unknown subcommand {}", other);
